@@ -42,7 +42,7 @@ def setup(ctx):
     from gaddlemaps import _exchage_map
     EM = _exchage_map.ExchangeMap
     for name in ('_calculate_refsystems_general', '_restore_point', '_restore_molecule', '__call__'):
-        _cov.watch(EM.__dict__[name], f'ExchangeMap.{name}')
+        _cov.watch_attr(EM, name, f'ExchangeMap.{name}')
     _cov.start()
     emmon.install_contract(ctx, law=True)
     _tmp['dir'] = tempfile.mkdtemp(prefix='gmv_c03_')
